@@ -154,10 +154,17 @@ pub fn history_of(pre : &PreD) -> RuleHistory
     h
 }
 
+/*  set by the replay of a "first script line fails, later lines succeed" counterexample */
+pub static mut FIRST_LINE_FAILS : bool = false;
+
 pub fn command_of(pre : &PreD, omit : [bool; 2], fail : bool) -> Vec<String>
 {
     let mut v : Vec<String> = vec![];
-    if fail
+    if fail && unsafe { FIRST_LINE_FAILS }
+    {
+        v.push("error".to_string());
+    }
+    else if fail
     {
         return vec!["error".to_string()];
     }
@@ -1022,6 +1029,107 @@ d
     v
 }
 
+/*  ---- C11 state files: build() killed at every mutation (and inside every write), then built again ---- */
+pub fn run_torn_state_file(which : &str) -> Vec<Violation>
+{
+    use crate::build::{build, BuildParams};
+    use crate::printer::EmptyPrinter;
+    use crate::hooksys::HookSystem;
+    let rules = "out\n:\nin\n:\nmycat\nin\nout\n:\n";
+    let mut v = vec![];
+    let params = || BuildParams::from_all(".ruler".to_string(), vec!["build.rules".to_string()], None, None);
+    for torn in [0usize, 5].iter()
+    {
+        for kill_after in 0..40u32
+        {
+            let mut sys = FakeSystem::new(100);
+            write_str_to_file(&mut sys, "build.rules", rules).unwrap();
+            sys.time_passes(1_000_000);
+            write_str_to_file(&mut sys, "in", "one\n").unwrap();
+            sys.time_passes(1_000_000);
+            if let Err(e) = build(sys.clone(), &mut EmptyPrinter::new(), params()) { v.push(Violation { properties : vec!["C11"], role : "replay: first build failed".into(), what : format!("{}", e) }); return v; }
+            sys.time_passes(1_000_000);
+            write_str_to_file(&mut sys, "in", "two\n").unwrap();
+            sys.time_passes(1_000_000);
+            /*  second build, killed after `kill_after` mutations */
+            let hs = HookSystem::new(sys.clone(), ".ruler/cache/");
+            { let mut h = hs.hooks.lock().unwrap(); h.freeze_after = Some(kill_after); h.torn_bytes = *torn; }
+            let r2 = std::panic::catch_unwind(std::panic::AssertUnwindSafe(|| build(hs.clone(), &mut EmptyPrinter::new(), params())));
+            let (died, calls) = { let h = hs.hooks.lock().unwrap(); (h.dead, h.calls.clone()) };
+            let _ = r2;
+            sys.time_passes(1_000_000);
+            /*  the next invocation, on whatever the kill left */
+            let r3 = std::panic::catch_unwind(std::panic::AssertUnwindSafe(|| build(sys.clone(), &mut EmptyPrinter::new(), params())));
+            let ok = match &r3 { Ok(Ok(())) => read_file(&sys, "out").unwrap_or(vec![]) == b"two\n".to_vec(), _ => false };
+            if !ok
+            {
+                let last = calls.last().cloned().unwrap_or("(nothing)".to_string());
+                let msg = match &r3 { Ok(Ok(())) => "succeeds with a wrong target".to_string(), Ok(Err(e)) => format!("ends with: {}", e), Err(_) => "panics".to_string() };
+                let file = if msg.contains("current_file_states") { "table" } else if msg.contains("history") { "history" } else { "state" };
+                if file == which || which == "any" || file == "state"
+                {
+                    v.push(Violation { properties : vec!["C11"], role : format!("{} file truncated or half written by a kill makes the next build fail", file),
+                        what : format!("second build killed after {} mutations (last completed: {}; {} bytes of the interrupted write got through); the next build {}", kill_after, last, torn, msg) });
+                    return v;
+                }
+            }
+            if !died { break; }
+        }
+    }
+    v
+}
+
+/*  ---- C12 (engine M): the real sorter on a concrete rule set written by lib/sort_engine.py ----
+    file: one line per rule  "t1 t2|s1 s2", then "goal <name>" or "goal -" */
+#[test]
+fn sort_case_from_env()
+{
+    use crate::rule::Rule;
+    use crate::sort::{topological_sort, topological_sort_all};
+    let path = match std::env::var("VERIF_SORT_CASE_TXT") { Ok(p) => p, Err(_) => return };
+    let text = std::fs::read_to_string(path).unwrap();
+    let mut rules = vec![];
+    let mut goal : Option<String> = None;
+    for line in text.lines()
+    {
+        if let Some(g) = line.strip_prefix("goal ") { if g.trim() != "-" { goal = Some(g.trim().to_string()); } continue; }
+        let mut parts = line.split('|');
+        let t : Vec<String> = parts.next().unwrap_or("").split_whitespace().map(|x| x.to_string()).collect();
+        let s : Vec<String> = parts.next().unwrap_or("").split_whitespace().map(|x| x.to_string()).collect();
+        if !t.is_empty() { rules.push(Rule::new(t, s, vec!["x".to_string()])); }
+    }
+    let fwd = rules.clone();
+    let mut rev = rules.clone();
+    rev.reverse();
+    let run = |r : Vec<Rule>| match &goal { Some(g) => topological_sort(r, g), None => topological_sort_all(r) };
+    let a = std::panic::catch_unwind(std::panic::AssertUnwindSafe(|| run(fwd)));
+    let b = std::panic::catch_unwind(std::panic::AssertUnwindSafe(|| run(rev)));
+    let q = |x : &String| format!("\"{}\"", x);
+    let show = |r : &std::thread::Result<Result<crate::sort::NodePack, crate::sort::TopologicalSortError>>| match r
+    {
+        Err(_) => "{\"panic\":true}".to_string(),
+        Ok(Err(e)) =>
+        {
+            use crate::sort::TopologicalSortError::*;
+            match e
+            {
+                TargetMissing(t) => format!("{{\"err\":\"TargetMissing\",\"names\":[{}]}}", q(t)),
+                SelfDependentRule(t) => format!("{{\"err\":\"SelfDependentRule\",\"names\":[{}]}}", q(t)),
+                CircularDependence(c) => format!("{{\"err\":\"CircularDependence\",\"names\":[{}]}}", c.iter().map(q).collect::<Vec<_>>().join(",")),
+                TargetInMultipleRules(t) => format!("{{\"err\":\"TargetInMultipleRules\",\"names\":[{}]}}", q(t)),
+            }
+        },
+        Ok(Ok(p)) =>
+        {
+            let nodes : Vec<String> = p.nodes.iter().map(|n| format!("{{\"targets\":[{}],\"src\":[{}]}}",
+                n.targets.iter().map(q).collect::<Vec<_>>().join(","),
+                n.source_indices.iter().map(|s| match s { crate::sort::SourceIndex::Leaf(i) => format!("[\"L\",{}]", i), crate::sort::SourceIndex::Pair(i, k) => format!("[\"P\",{},{}]", i, k) }).collect::<Vec<_>>().join(","))).collect();
+            format!("{{\"ok\":{{\"leaves\":[{}],\"nodes\":[{}]}}}}", p.leaves.iter().map(q).collect::<Vec<_>>().join(","), nodes.join(","))
+        },
+    };
+    println!("SORT-RESULT {{\"fwd\":{},\"rev\":{}}}", show(&a), show(&b));
+}
+
 fn parse_script(path : &str) -> (String, Vec<u8>)
 {
     let txt = std::fs::read_to_string(format!("{}.txt", path)).expect("replay script .txt");
@@ -1078,10 +1186,14 @@ pub fn run_harness_natively(harness : &str, bytes : &[u8]) -> (Vec<Violation>, b
         let spawn = raw.flag();
         let o0 = raw.flag();
         let o1 = raw.flag();
+        let first_line_fails = raw.flag();
         /*  rebuild happens when nothing is remembered or a target is irrecoverable:
             drop the history entry so that the public function takes the rebuild path */
         pre.has_history = false;
-        run_rule_step(&pre, [o0, o1 && n == 2], fail || spawn, true)
+        unsafe { FIRST_LINE_FAILS = first_line_fails && !fail && !spawn; }
+        let v = run_rule_step(&pre, [o0, o1 && n == 2], fail || spawn || first_line_fails, true);
+        unsafe { FIRST_LINE_FAILS = false; }
+        v
     }
     else if harness.starts_with("step_clean")
     {
@@ -1130,6 +1242,14 @@ pub fn run_harness_natively(harness : &str, bytes : &[u8]) -> (Vec<Violation>, b
             is restored into) is reached by the fixed history below through build() */
         run_coarse_history()
     }
+    else if harness.starts_with("torn_rule_history")
+    {
+        run_torn_state_file("history")
+    }
+    else if harness.starts_with("torn_file_state_table")
+    {
+        run_torn_state_file("table")
+    }
     else if harness.starts_with("unit_history_insert")
     {
         run_history_insert_case(bytes)
@@ -1167,6 +1287,21 @@ pub fn run_harness_natively(harness : &str, bytes : &[u8]) -> (Vec<Violation>, b
         }
         pre.ws[2].present = false;
         run_rule_step(&pre, [false, false], rebuild_err, true)
+    }
+    else if harness.starts_with("rule_rebuild_path")
+    {
+        let mut pre = prestate::decode(&mut raw, n, Clock::Distinct, false);
+        let needs = [bytes.get(NRAW).cloned().unwrap_or(1) != 0, bytes.get(NRAW + 1).cloned().unwrap_or(1) != 0];
+        for i in 0..n
+        {
+            if needs[i] || !pre.has_history
+            {
+                pre.ws[i].present = false;
+                pre.cache[pre.remembered[i] as usize].present = false;
+            }
+        }
+        if !(0..n).any(|i| !pre.ws[i].present) { pre.ws[0].present = false; pre.cache[pre.remembered[0] as usize].present = false; }
+        run_rule_step(&pre, [false, false], false, false)
     }
     else if harness.starts_with("step_rebuild_node")
     {
